@@ -142,34 +142,102 @@ def split_parts(entries, n):
 
 
 # ---- text layouts ---------------------------------------------------------------------------------
-def csv_expected(entries, fields, exclude):
-    """Rows a fresh CSV writer produces for these records: a header whenever the record type changes."""
-    rows = []
-    last = None
-    for e in entries:
-        sel = tm.select(e.names(), fields, exclude)
-        k = e.type_key()
-        if k != last:
-            rows.append(list(sel))
-            last = k
-        rows.append([tm.cell_text(e.vals.get(n)) for n in sel])
-    return rows
+def value_alternatives(e, slot, empty_digest=None):
+    """Real values whose text forms are all acceptable for this slot.  For typed-list (T[]) and digest fields an unset
+    value and the type's empty default are one value by definition (property C01): a record that rdump rebuilt (projection,
+    expansion) carries the empty default where the source record carried None."""
+    t = e.types().get(slot, "")
+    v = e.vals.get(slot)
+    if t.endswith("[]") and (v is None or len(v) == 0):
+        return [None, []]
+    if t == "digest" and empty_digest is not None:
+        if v is None or (getattr(v, "md5", 1) is None and getattr(v, "sha1", 1) is None and getattr(v, "sha256", 1) is None):
+            return [None, empty_digest()]
+    return [v]
 
 
-def line_items(e, fields, exclude, verbose):
+def csv_cells(e, fields, exclude, empty_digest=None):
+    """-> (selected names, [set of acceptable cell texts per selected name])"""
+    sel = tm.select(e.names(), fields, exclude)
+    return list(sel), [set(tm.cell_text(a) for a in value_alternatives(e, n, empty_digest)) for n in sel]
+
+
+def line_items(e, fields, exclude, verbose, empty_digest=None):
+    """[(key text, set of acceptable value texts)] of one block of the line writer"""
     sel = tm.select(e.names(), fields, exclude)
     types = e.types()
-    return [("%s (%s)" % (n, types[n]) if verbose else n, str(e.vals.get(n))) for n in sel]
+    return [("%s (%s)" % (n, types[n]) if verbose else n, set(str(a) for a in value_alternatives(e, n, empty_digest))) for n in sel]
 
 
-def text_line(e):
-    """The text writer prints repr(record): '<name field=repr(value) ...>' over the data fields."""
-    return "<%s %s>" % (e.obs[1], " ".join("%s=%r" % (n, e.vals.get(n)) for _, n in m15.fields_of(e.obs)))
+def match_line_blocks(text, entries, fields, exclude, verbose, empty_digest=None):
+    """The line writer's layout: '--[ RECORD n ]--' then one 'name = value' line per selected field, names right-aligned.
+    -> None when `text` is exactly the blocks of `entries`, else a description of the first difference."""
+    pos = 0
+    for i, e in enumerate(entries):
+        head = "--[ RECORD %d ]--\n" % (i + 1)
+        if not text.startswith(head, pos):
+            return {"block": i + 1, "why": "expected block header %r, found %r" % (head, text[pos : pos + 60])}
+        pos += len(head)
+        ends = set()
+        for key, alts in line_items(e, fields, exclude, verbose, empty_digest):
+            p = pos
+            while p < len(text) and text[p] == " ":
+                p += 1
+            if not text.startswith(key + " = ", p):
+                return {"block": i + 1, "why": "expected the line of field %r, found %r" % (key, text[pos : pos + 80])}
+            q = p + len(key) + 3
+            hit = None
+            for a in sorted(alts, key=len, reverse=True):
+                if text.startswith(a + "\n", q):
+                    hit = a
+                    break
+            if hit is None:
+                return {"block": i + 1, "why": "value of field %r: expected one of %r, found %r" % (key, sorted(x[:80] for x in alts), text[q : q + 80])}
+            ends.add(p - pos + len(key))
+            pos = q + len(hit) + 1
+        if len(ends) > 1:
+            return {"block": i + 1, "why": "names are not right-aligned (end columns %r)" % sorted(ends)}
+    if text[pos:].strip():
+        return {"why": "output continues after the last expected record", "rest": text[pos : pos + 200]}
+    return None
+
+
+def match_text_lines(text, entries, empty_digest=None):
+    """The text writer prints repr(record): '<name field=repr(value) ...>' over the data fields, one line per record.
+    -> None or a description of the first difference."""
+    pos = 0
+    for i, e in enumerate(entries):
+        start = pos
+        head = "<%s " % e.obs[1]
+        if not text.startswith(head, pos):
+            return {"record": i, "why": "expected %r, found %r" % (head, text[pos : pos + 80])}
+        pos += len(head)
+        names = [n for _, n in m15.fields_of(e.obs)]
+        for j, n in enumerate(names):
+            lead = ("" if j == 0 else " ") + n + "="
+            if not text.startswith(lead, pos):
+                return {"record": i, "why": "expected field %r at %r" % (n, text[pos : pos + 80]), "line_start": text[start : start + 120]}
+            pos += len(lead)
+            hit = None
+            for a in sorted((repr(a) for a in value_alternatives(e, n, empty_digest)), key=len, reverse=True):
+                if text.startswith(a, pos):
+                    hit = a
+                    break
+            if hit is None:
+                return {"record": i, "why": "value of field %r: found %r" % (n, text[pos : pos + 80]),
+                        "expected_one_of": [repr(a)[:120] for a in value_alternatives(e, n, empty_digest)]}
+            pos += len(hit)
+        if not text.startswith(">\n", pos):
+            return {"record": i, "why": "expected the end of the record's line, found %r" % text[pos : pos + 80]}
+        pos += 2
+    if text[pos:]:
+        return {"why": "output continues after the last expected record", "rest": text[pos : pos + 200]}
+    return None
 
 
 def json_scalar_expectation(e):
     """For plain-JSON output: {slot: expected JSON value} for the slots whose type maps to a JSON scalar
-    (text, integers, float, boolean, unset); other slots are checked for presence only."""
+    (text, integers, boolean, unset); other slots are checked for presence only."""
     out = {}
     types = e.types()
     for n in e.names():
